@@ -80,9 +80,12 @@ pub fn generate(out: &mut Out, prop: &str, thorough: bool, seed: u64) {
         "C06" | "C10" | "C12" | "C13" | "C15" | "C16" | "C20" => universal::gen_cli_histories(out, &mut rng, n),
         "C07" | "C14" => universal::gen_srv_histories(out, &mut rng, n),
         "C03" => {
+            // C03's monitor is generic (no panic, termination, bounded buffers): it judges these too
+            out.monitored = true;
             universal::gen_cli_histories(out, &mut rng, n);
             universal::gen_srv_histories(out, &mut rng, n);
             universal::gen_stream_histories(out, &mut rng, n);
+            out.monitored = false;
         }
         "C04" | "C05" | "C11" => universal::gen_stream_histories(out, &mut rng, 2 * n),
         _ => {}
